@@ -17,7 +17,9 @@ import (
 // Session is one file system under test plus the handles opened through it.
 type Session struct {
 	Target string
-	FS     avfs.VFS
+	FS     avfs.VFS // the file system the calls go through
+	Base   avfs.VFS // the file system the projection reads (differs from FS under a wrapper)
+	Wrap   string   // wrapper kind, "" when none
 	Hs     []avfs.File
 	Tmp    map[string]string // real temp name -> abstract name
 	NoIdm  bool              // owners are not compared
@@ -206,7 +208,7 @@ func (s *Session) infoOf(fi fs.FileInfo) Info {
 	func() {
 		defer func() { _ = recover() }()
 
-		st := s.FS.ToSysStat(fi)
+		st := s.base().ToSysStat(fi)
 		if !s.NoIdm {
 			in.U, in.G = st.Uid(), st.Gid()
 		}
@@ -409,6 +411,18 @@ func (s *Session) exec(c Call, res *Res) {
 		setErr(vfs.Chdir(p))
 	case "setumask":
 		setErr(vfs.SetUMask(fs.FileMode(c.Perm)))
+	case "subwrite", "submkdir":
+		// Sub(dir), then a mutator through the file system it returns
+		sub, err := vfs.Sub(p)
+		setErr(err)
+
+		if err == nil {
+			if c.Op == "subwrite" {
+				setErr(sub.WriteFile("/"+q, bytesOf(c.Data), 0o644))
+			} else {
+				setErr(sub.Mkdir("/"+q, 0o755))
+			}
+		}
 	case "stat", "lstat":
 		var (
 			fi  fs.FileInfo
